@@ -87,7 +87,10 @@ class SchemaDocGen:
             return {"k": "null"}
         if ty["k"] == "list":
             if r.chance(1, 5):
-                return self.value(ty["of"], depth + 1, False, False)       # single value coerced to a list
+                inner = ty                                                  # single NON-LIST value coerced to a (nested) list of one
+                while inner["k"] != "named":
+                    inner = inner["of"]
+                return self.value(inner, depth + 1, False, False)
             return {"k": "list", "vs": [self.value(ty["of"], depth + 1, False, ty["of"]["k"] != "nn") for _ in range(r.below(3))]}
         n = ty["n"]
         k = self.kind(n)
